@@ -202,6 +202,22 @@ func (u *Upstream) waitToSendAllDataPointsAndReceiveAllAck(ctx context.Context) 
 		return nil
 	}
 
+	// The loop below sleeps on receivedAck, which is only signalled when an ack arrives.
+	// Wake it up when the caller's context, the close timeout or the stream itself ends.
+	stopWaker := make(chan struct{})
+	defer close(stopWaker)
+	go func() {
+		select {
+		case <-parentCtx.Done():
+		case <-ctx.Done():
+		case <-stopWaker:
+			return
+		}
+		u.receivedAck.L.Lock()
+		u.receivedAck.Broadcast()
+		u.receivedAck.L.Unlock()
+	}()
+
 	u.receivedAck.L.Lock()
 	var err error
 	var remaining map[uint32]DataPointGroups
